@@ -2,6 +2,9 @@
   gen_raft_tail_repair : RaftWal::open_with_config cuts a torn tail before appending
   gen_persist_before   : every persist_term_and_vote call site precedes the assignment of
                          current_term / voted_for in its handler (persist-before-act)
+  gen_persist_sites_ok : one flag per persist_term_and_vote call site of raft.rs (all handlers, incl.
+                         pre-vote response, snapshot install, async election): the logged term and
+                         vote expressions are the ones the handler assigns to memory afterwards
 """
 import os
 import re
@@ -45,6 +48,71 @@ def scan_cap(src, fn_name="complete_prefix_len"):
     return "None" if not caps else "(Some %d)" % min(caps)
 
 
+def _call_args(body, i):
+    depth, j = 1, i
+    while depth > 0:
+        c = body[j]
+        if c == "(":
+            depth += 1
+        elif c == ")":
+            depth -= 1
+        j += 1
+    return body[i:j - 1], j
+
+
+def _split_top(args):
+    out, depth, cur = [], 0, ""
+    for c in args:
+        if c in "([{":
+            depth += 1
+        elif c in ")]}":
+            depth -= 1
+        if c == "," and depth == 0:
+            out.append(cur.strip())
+            cur = ""
+        else:
+            cur += c
+    if cur.strip():
+        out.append(cur.strip())
+    return out
+
+
+def _norm_vote(e):
+    e = re.sub(r"\s+", "", e)
+    e = e.replace("&", "").replace(".clone()", "").replace(".as_deref()", "").replace(".to_string()", "")
+    return e
+
+
+def persist_sites(raft):
+    """every `self.persist_term_and_vote(T, V)` call outside the test module, with the function it is
+    in and what the function assigns to current_term / voted_for afterwards.  A site is consistent
+    when the logged term is the term memory adopts (or memory keeps its term and the logged one is
+    `persistent.current_term`) and the logged vote is the vote memory adopts."""
+    cut = raft.find("mod tests")
+    body = raft if cut < 0 else raft[:cut]
+    calls = [m for m in re.finditer(r"self\.persist_term_and_vote\(", body)]
+    sites = []
+    for n, m in enumerate(calls):
+        args, end = _call_args(body, m.end())
+        a = _split_top(args)
+        fn = re.findall(r"fn\s+([a-z_0-9]+)\s*[<(]", body[:m.start()])[-1]
+        nxt_fn = re.search(r"\n    (pub(\([a-z]+\))?\s+)?(async\s+)?fn\s", body[end:])
+        stop = end + nxt_fn.start() if nxt_fn else len(body)
+        if n + 1 < len(calls):
+            stop = min(stop, calls[n + 1].start())
+        rest = body[end:stop]
+        mt = re.search(r"\.current_term\s*=\s*([^=;][^;]*);", rest)
+        mv = re.search(r"\.voted_for\s*=\s*([^=;][^;]*);", rest)
+        t_logged = re.sub(r"\s+", "", a[0]) if a else "?"
+        v_logged = _norm_vote(a[1]) if len(a) > 1 else "?"
+        t_mem = re.sub(r"\s+", "", mt.group(1)) if mt else None
+        v_mem = _norm_vote(mv.group(1)) if mv else None
+        ok_t = (t_mem == t_logged) or (t_mem is None and t_logged == "persistent.current_term")
+        ok_v = (v_mem == v_logged)
+        sites.append((fn, t_logged, v_logged, t_mem, v_mem, ok_t and ok_v))
+    return sites
+
+
 def generate(repo):
     items = {}
     tail_repair = False
@@ -69,6 +137,22 @@ def generate(repo):
         items["persist-before-act call sites"] = "translated"
     except Exception as ex:
         items["persist-before-act call sites"] = "miss:%s" % ex
+    sites = []
+    try:
+        sites = persist_sites(raft)
+        items["persist_term_and_vote call sites (logged term / vote = adopted term / vote)"] = "translated"
+    except Exception as ex:
+        items["persist_term_and_vote call sites (logged term / vote = adopted term / vote)"] = "miss:%s" % ex
+    snap_logged = False
+    try:
+        _, body = find_fn(raft, "install_snapshot_entries", after=r"impl\s+RaftNode\b")
+        i1 = body.find("persist_installed_log(")
+        i2 = body.find("persistent.log = entries")
+        _, hb = find_fn(raft, "persist_installed_log", after=r"impl\s+RaftNode\b")
+        snap_logged = (0 <= i1 < i2) and "persist_log_entry" in hb and "LogTruncate" in hb
+        items["install_snapshot_entries logs the installed entries before it replaces the log"] = "translated"
+    except Exception as ex:
+        items["install_snapshot_entries logs the installed entries before it replaces the log"] = "miss:%s" % ex
     cap = "None"
     try:
         cap = scan_cap(strip_comments(read(repo, "tensor_chain/src/raft_wal.rs")))
@@ -82,6 +166,13 @@ def generate(repo):
         "(* raft.rs: persist_term_and_vote precedes every assignment of current_term / voted_for *)\n"
         "Definition gen_persist_before : bool := %s.\n" % (_b(tail_repair), _b(persist_before))
     )
+    text += "(* raft.rs: every self.persist_term_and_vote(T, V) call outside the tests, in source order:\n"
+    for (fn, tl, vl, tm, vm, ok) in sites:
+        text += "     %s: logs (%s, %s); memory then adopts (%s, %s)\n" % (fn, tl, vl, tm if tm else "term unchanged", vm)
+    text += "   true = the logged term and vote are the ones memory adopts *)\n"
+    text += "Definition gen_persist_sites_ok : list bool := [%s].\n" % "; ".join(_b(x[5]) for x in sites)
+    text += ("(* install_snapshot_entries: the installed entries are logged (persist_installed_log) before persistent.log is replaced *)\n"
+             "Definition gen_snapshot_log_persisted : bool := %s.\n" % _b(snap_logged))
     text += ("(* RaftWal::complete_prefix_len: a record length above this bound is treated as a torn tail (None = no bound) *)\n"
              "Definition gen_raft_scan_cap : option N := %s.\n" % cap)
     return text, items
